@@ -11,6 +11,11 @@ abbrev G := Except GenError
 
 def todo {α : Type} (tag : String) : G α := .error (.panic ("todo:" ++ tag))
 
+/-- `name.as_ref().unwrap()` -/
+def unwrapName (tag : String) : Option String → G String
+  | some n => .ok n
+  | none => .error (.panic ("unwrap:" ++ tag))
+
 /-- `rust_scalar_type` -/
 def rustScalarType (s : Scalar) : G RustTy :=
   match s.kind, s.width with
